@@ -16,8 +16,35 @@ def regen_loops():
     return (w, r), core.write_if_changed(core.LEAN / "CddVerif" / "Gen" / "Loops.lean", to_lean(w, r))
 
 
+def regen_setiter():
+    from harness.translators.setiter import scan, to_lean
+
+    sites = scan(core.REPO)
+    return sites, core.write_if_changed(core.LEAN / "CddVerif" / "Gen" / "SetIter.lean", to_lean(sites))
+
+
 def regen_all():
+    """every translator table (used by tools/regen.py = first step of MANIFEST.setup_cmd)"""
     out = []
     out.append(("Gen/Loops.lean", regen_loops()[1]))
     out.append(("Gen/Imports.lean", regen_imports()[1]))
+    out.append(("Gen/SetIter.lean", regen_setiter()[1]))
+    try:
+        from harness.translators import jsonschema_tables as jt
+
+        out.append(("Gen/JsonSchemaTables.lean", core.write_if_changed(core.LEAN / "CddVerif" / "Gen" / "JsonSchemaTables.lean", jt.to_lean(jt.scan(core.REPO)))))
+    except ImportError:
+        pass
+    try:
+        from harness.translators import sqltables
+
+        out.append(("Gen/SqlTables.lean", sqltables.regen()[1]))
+    except ImportError:
+        pass
+    try:
+        from harness.translators import evalsites
+
+        out.append(("Gen/EvalSites.lean", evalsites.regen()[2]))
+    except ImportError:
+        pass
     return out
